@@ -362,7 +362,7 @@ Definition regP (s : st) (c : client) : Prop :=
   end.
 
 Lemma inv_init : Inv init.
-Proof. split; [exact base_init|]. constructor; cbn; intros; try contradiction; try reflexivity. exfalso; auto. Qed.
+Proof. split; [exact base_init|]. constructor; cbn; intros; try contradiction; try reflexivity. Qed.
 
 Lemma invd_init : InvD init.
 Proof. constructor; cbn; intros; contradiction. Qed.
@@ -402,7 +402,8 @@ Lemma attach_all_spec fs cs : forall s, Base s -> NoDup cs ->
       In (MSub id f o) (inner s) \/ (In o cs /\ In (id, f) (entries o s'))).
 Proof.
   induction cs as [|c r IH]; intros s B Hnd; cbn [fold_left].
-  - repeat split; try assumption; try reflexivity; try tauto. intros c [].
+  - split; [exact B|]. split; [reflexivity|]. split; [reflexivity|]. split; [intros c []|].
+    split; [reflexivity|]. split; [tauto|]. intros id f o H; left; exact H.
   - inversion Hnd as [|? ? Hc Hr]; subst.
     destruct (IH (attach fs s c) (base_attach fs s c B) Hr) as (B' & Hru & Hst & Hin & Hout & Hpl & Hsub).
     split; [exact B'|]. split; [rewrite Hru; reflexivity|]. split; [rewrite Hst; reflexivity|].
@@ -452,7 +453,7 @@ Proof.
   destruct (m_own_reg s M c) as (t & Ht & Hin); [congruence|]. rewrite (regP_stream s c t Ht). exact Hin.
 Qed.
 
-Lemma step_register_stream s c t : Inv s -> snd c = TStream t ->
+Lemma step_register_stream s (c : client) t : Inv s -> snd c = TStream t ->
   exists s', step true s (Register c) = Ok s' [] /\ Facts s (Register c) s'.
 Proof.
   intros [B M] Hc. cbn [step]. rewrite Hc.
@@ -523,4 +524,287 @@ Proof.
     + intros t'. reflexivity.
     + exact Hreg1.
     + intros D _. destruct D as [d1 d2]. constructor; assumption.
+Qed.
+
+Lemma in_inner_add x m l : In x (inner_add m l) <-> x = m \/ In x l.
+Proof.
+  unfold inner_add. destruct (existsb (member_eqb m) l) eqn:E.
+  - apply existsb_exists in E. destruct E as [y [Hy E]]. apply member_eqb_spec in E. subst y.
+    split; [intros H; right; exact H|intros [->|H]; assumption].
+  - rewrite in_app_iff. cbn. split; [intros [H|[H|[]]]; auto|intros [H|H]; auto].
+Qed.
+
+Lemma in_inner_del x m l : In x (inner_del m l) <-> In x l /\ x <> m.
+Proof.
+  unfold inner_del. rewrite filter_In. split.
+  - intros [H1 H2]. split; [exact H1|]. intros ->.
+    assert (member_eqb m m = true) by (apply member_eqb_spec; reflexivity). rewrite H in H2. discriminate.
+  - intros [H1 H2]. split; [exact H1|]. destruct (member_eqb m x) eqn:E; [|reflexivity].
+    apply member_eqb_spec in E. congruence.
+Qed.
+
+Lemma step_register_plain s (c : client) f : Inv s -> snd c = TFeed f ->
+  exists s', step true s (Register c) = Ok s' [] /\ Facts s (Register c) s'.
+Proof.
+  intros [B M] Hc. cbn [step]. rewrite Hc.
+  exists (set_inner (inner_add (MPlain c) (inner s)) s). split; [reflexivity|].
+  split; [split|split; [|split]].
+  - apply base_set_inner; [exact B|]. intros id g o H. apply in_inner_add. right; exact H.
+  - apply (match_ext s); try reflexivity. exact M.
+  - intros t. reflexivity.
+  - intros x. unfold regP. destruct (snd x) as [t|g] eqn:Ex.
+    + change (clients_of t (set_inner (inner_add (MPlain c) (inner s)) s)) with (clients_of t s).
+      split; [intros H; right; exact H|intros [->|H]; [congruence|exact H]].
+    + cbn [set_inner inner]. rewrite in_inner_add. split; (intros [H|H]; [left; congruence|right; exact H]).
+  - intros D _. constructor; cbn [set_inner inner].
+    + intros id g o H. apply in_inner_add in H. destruct H as [H|H]; [discriminate|].
+      apply (d_sub s D) in H. exact H.
+    + intros x H. apply in_inner_add in H. destruct H as [H|H]; [|apply (d_plain s D); exact H].
+      inversion H; subst x. exists f; exact Hc.
+Qed.
+
+Lemma step_unregister_plain s (c : client) f : Inv s -> snd c = TFeed f ->
+  exists s', step true s (Unregister c) = Ok s' [] /\ Facts s (Unregister c) s'.
+Proof.
+  intros [B M] Hc. cbn [step]. rewrite Hc.
+  exists (set_inner (inner_del (MPlain c) (inner s)) s). split; [reflexivity|].
+  split; [split|split; [|split]].
+  - apply base_set_inner; [exact B|]. intros id g o H. apply in_inner_del. split; [exact H|discriminate].
+  - apply (match_ext s); try reflexivity. exact M.
+  - intros t. reflexivity.
+  - intros x. unfold regP. destruct (snd x) as [t|g] eqn:Ex.
+    + change (clients_of t (set_inner (inner_del (MPlain c) (inner s)) s)) with (clients_of t s).
+      split; [intros H; split; [congruence|exact H]|intros [_ H]; exact H].
+    + cbn [set_inner inner]. rewrite in_inner_del. split; intros [H1 H2].
+      * split; [intros ->; apply H2; reflexivity|exact H1].
+      * split; [exact H2|intros E; inversion E; contradiction].
+  - intros D _. constructor; cbn [set_inner inner].
+    + intros id g o H. apply in_inner_del in H. apply (d_sub s D). apply H.
+    + intros x H. apply in_inner_del in H. apply (d_plain s D). apply H.
+Qed.
+
+Lemma step_unregister_stream s (c : client) t : Inv s -> snd c = TStream t ->
+  exists s', step true s (Unregister c) = Ok s' [] /\ Facts s (Unregister c) s'.
+Proof.
+  intros [B M] Hc. cbn [step]. rewrite Hc.
+  assert (Hnd : NoDup [c]) by (constructor; [intros []|constructor]).
+  destruct (stop_clients_spec true [c] s B Hnd) as (inn & cl & Hstop & Hcl & Hinn).
+  rewrite Hstop. fold (stopped [c] s inn cl).
+  pose proof (base_stopped [c] s inn cl B Hcl Hinn) as B1.
+  set (s1 := stopped [c] s inn cl) in *.
+  assert (Hsubs1 : forall x, x <> c -> slk x (subs s1) = slk x (subs s)).
+  { intros x Hx. unfold s1, stopped; cbn [subs]. apply slk_drop_out. intros [->|[]]; congruence. }
+  assert (Hsubs1c : slk c (subs s1) = None).
+  { unfold s1, stopped; cbn [subs]. apply slk_drop_in. left; reflexivity. }
+  (* both branches of the streams lookup give the same membership *)
+  assert (Hex : exists s',
+     match tlk t (streams s1) with
+     | Some l => Ok (set_streams (tins t (del_client c l) (streams s1)) s1) []
+     | None => Ok s1 []
+     end = Ok s' [] /\ Base s' /\ rules s' = rules s /\ subs s' = subs s1 /\ inner s' = inn /\
+     (forall t' x, In x (clients_of t' s') <-> In x (clients_of t' s) /\ x <> c)).
+  { change (streams s1) with (streams s). destruct (tlk t (streams s)) as [l|] eqn:El.
+    - eexists. split; [reflexivity|]. split; [|split; [reflexivity|split; [reflexivity|split; [reflexivity|]]]].
+      + apply base_set_streams; [exact B1|]. intros t' l'. destruct (N.eq_dec t' t) as [->|Hn].
+        * rewrite tlk_ins_eq. intros E; inversion E; subst l'. destruct (b_cl s B t l El) as [Hndl Htp]. split.
+          { apply nodup_del_client; exact Hndl. }
+          intros x Hx. apply in_del_client in Hx. apply Htp. apply Hx.
+        * rewrite tlk_ins_neq by exact Hn. apply (b_cl s B).
+      + intros t' x. unfold clients_of at 1. cbn [set_streams streams]. destruct (N.eq_dec t' t) as [->|Hn].
+        * rewrite tlk_ins_eq, in_del_client. unfold clients_of. rewrite El. reflexivity.
+        * rewrite tlk_ins_neq by exact Hn. change (streams s1) with (streams s). fold (clients_of t' s).
+          split; [intros H; split; [exact H|]|intros [H _]; exact H].
+          intros ->. apply (clients_of_wf s t' B) in H. congruence.
+    - exists s1. split; [reflexivity|]. split; [exact B1|]. split; [reflexivity|]. split; [reflexivity|]. split; [reflexivity|].
+      intros t' x. change (clients_of t' s1) with (clients_of t' s).
+      split; [intros H; split; [exact H|]|intros [H _]; exact H].
+      intros ->. pose proof (clients_of_wf s t' B) as [_ Htp]. specialize (Htp c H).
+      assert (t' = t) by congruence. subst t'. unfold clients_of in H. rewrite El in H. contradiction. }
+  destruct Hex as (s' & Hs' & B' & Hru & Hsu & Hin' & Hcl').
+  exists s'. split; [exact Hs'|]. split; [split|split; [|split]].
+  - exact B'.
+  - constructor.
+    + intros x Hx. rewrite Hsu in Hx. destruct (client_dec x c) as [->|Hn]; [congruence|].
+      rewrite Hsubs1 in Hx by exact Hn. destruct (m_own_reg s M x Hx) as (t' & Ht' & Hin).
+      exists t'. split; [exact Ht'|]. apply Hcl'. split; assumption.
+    + intros t' x Hx. apply Hcl' in Hx. destruct Hx as [Hx Hn]. rewrite Hru, Hsu, Hsubs1 by exact Hn.
+      apply (m_rule s M); exact Hx.
+    + rewrite Hru. exact (m_reserved s M).
+  - intros t'. rewrite Hru. reflexivity.
+  - intros x. unfold regP. destruct (snd x) as [t'|g] eqn:Ex.
+    + rewrite Hcl'. tauto.
+    + rewrite Hin', Hinn. split.
+      * intros [H _]. split; [congruence|exact H].
+      * intros [_ H]. split; [exact H|]. intros; reflexivity.
+  - intros D _. constructor.
+    + intros id g o. rewrite Hin', Hinn. intros [H1 H2]. apply (d_sub s D) in H1.
+      destruct (client_dec o c) as [->|Hn].
+      * specialize (H2 c id g (or_introl eq_refl) H1). rewrite is_sub_self in H2. discriminate.
+      * unfold entries. rewrite Hsu, Hsubs1 by exact Hn. exact H1.
+    + intros x. rewrite Hin', Hinn. intros [H _]. apply (d_plain s D); exact H.
+Qed.
+
+(* ---- "unregister clients from old feeds, if any" : the guarded loop shared by add-rule and delete ---- *)
+Lemma clear_clients s t : Inv s ->
+  exists s1,
+    (if mem N.eqb t (rules s) then stop_clients true (clients_of t s) s else Some s) = Some s1 /\
+    Base s1 /\ rules s1 = rules s /\ streams s1 = streams s /\
+    (forall c, In c (clients_of t s) -> slk c (subs s1) = None) /\
+    (forall c, ~ In c (clients_of t s) -> slk c (subs s1) = slk c (subs s)) /\
+    (forall c, In (MPlain c) (inner s1) <-> In (MPlain c) (inner s)) /\
+    (InvD s -> InvD s1).
+Proof.
+  intros [B M]. destruct (clients_of_wf s t B) as [Hnd Htp].
+  unfold mem. destruct (rlk t (rules s)) as [fs|] eqn:Er.
+  - destruct (stop_clients_spec true (clients_of t s) s B Hnd) as (inn & cl & Hstop & Hcl & Hinn).
+    rewrite Hstop. fold (stopped (clients_of t s) s inn cl). eexists. split; [reflexivity|].
+    split; [apply base_stopped; assumption|]. split; [reflexivity|]. split; [reflexivity|].
+    split; [intros c H; cbn [stopped subs]; apply slk_drop_in; exact H|].
+    split; [intros c H; cbn [stopped subs]; apply slk_drop_out; exact H|].
+    split.
+    + intros c. cbn [stopped inner]. rewrite Hinn. split; [intros [H _]; exact H|intros H; split; [exact H|intros; reflexivity]].
+    + intros D. constructor; cbn [stopped inner].
+      * intros id f o Hm. apply Hinn in Hm. destruct Hm as [H1 H2]. apply (d_sub s D) in H1.
+        destruct (in_cs_dec o (clients_of t s)) as [Ho|Ho].
+        { specialize (H2 o id f Ho H1). rewrite is_sub_self in H2. discriminate. }
+        rewrite entries_stopped_out by exact Ho. exact H1.
+      * intros c Hm. apply Hinn in Hm. apply (d_plain s D). apply Hm.
+  - exists s. split; [reflexivity|]. split; [exact B|]. split; [reflexivity|]. split; [reflexivity|].
+    split; [|split; [reflexivity|split; [reflexivity|intros D; exact D]]].
+    intros c H. pose proof (m_rule s M t c H) as Hm. rewrite Er in Hm. exact Hm.
+Qed.
+
+Lemma step_addrule s t fs : Inv s ->
+  exists s', step true s (AddRule t fs) = Ok s' [] /\ Facts s (AddRule t fs) s'.
+Proof.
+  intros I. pose proof I as [B M]. cbn [step]. destruct (N.eqb t reserved) eqn:Et.
+  { exists s. split; [reflexivity|]. split; [exact I|]. split; [|split; [reflexivity|intros D _; exact D]].
+    intros t'. cbn [rule_step]. rewrite Et. reflexivity. }
+  apply N.eqb_neq in Et.
+  destruct (clear_clients s t I) as (s1 & Hs1 & B1 & Hru1 & Hst1 & Hin1 & Hout1 & Hpl1 & HD1).
+  rewrite Hs1.
+  assert (Hcs : clients_of t s1 = clients_of t s) by (unfold clients_of; rewrite Hst1; reflexivity).
+  rewrite Hcs. destruct (clients_of_wf s t B) as [Hnd Htp].
+  set (s2 := set_rules (rins t fs (rules s1)) s1).
+  destruct (attach_all_spec fs (clients_of t s) s2 (base_set_rules _ s1 B1) Hnd) as (B' & Hru & Hst & Hin & Hout & Hpl & Hsub).
+  set (s' := fold_left (attach fs) (clients_of t s) s2) in *.
+  assert (Hcl : forall t', clients_of t' s' = clients_of t' s).
+  { intros t'. unfold clients_of. rewrite Hst. unfold s2; cbn [set_rules streams]. rewrite Hst1. reflexivity. }
+  exists s'. split; [reflexivity|]. split; [split|split; [|split]].
+  - exact B'.
+  - constructor.
+    + intros c Hc. destruct (in_cs_dec c (clients_of t s)) as [Hi|Hi].
+      * exists t. split; [apply Htp; exact Hi|rewrite Hcl; exact Hi].
+      * rewrite (Hout c Hi) in Hc. unfold s2 in Hc; cbn [set_rules subs] in Hc. rewrite (Hout1 c Hi) in Hc.
+        destruct (m_own_reg s M c Hc) as (t' & Ht' & Hin'). exists t'. split; [exact Ht'|rewrite Hcl; exact Hin'].
+    + intros t' c Hc. rewrite Hcl in Hc. rewrite Hru. unfold s2 at 1; cbn [set_rules rules]. rewrite Hru1.
+      destruct (N.eq_dec t' t) as [->|Hn].
+      * rewrite rlk_ins_eq. apply Hin; exact Hc.
+      * rewrite rlk_ins_neq by exact Hn.
+        assert (Hi : ~ In c (clients_of t s)).
+        { intros Hi. apply Hn. eapply clients_of_topic; eassumption. }
+        rewrite (Hout c Hi). unfold s2; cbn [set_rules subs]. rewrite (Hout1 c Hi). apply (m_rule s M); exact Hc.
+    + rewrite Hru. unfold s2; cbn [set_rules rules]. rewrite Hru1.
+      rewrite rlk_ins_neq by (intros E; apply Et; symmetry; exact E). exact (m_reserved s M).
+  - intros t'. rewrite Hru. unfold s2; cbn [set_rules rules]. rewrite Hru1. cbn [rule_step].
+    destruct (N.eqb t reserved) eqn:E; [apply EN in E; contradiction|].
+    destruct (N.eqb t' t) eqn:E2.
+    + apply EN in E2. subst t'. apply rlk_ins_eq.
+    + apply N.eqb_neq in E2. apply rlk_ins_neq; exact E2.
+  - intros c. unfold regP. destruct (snd c) as [t'|g].
+    + rewrite Hcl. reflexivity.
+    + rewrite Hpl. unfold s2; cbn [set_rules inner]. apply Hpl1.
+  - intros D _. specialize (HD1 D). constructor.
+    + intros id f o Hm. destruct (Hsub id f o Hm) as [H|[_ H]]; [|exact H].
+      unfold s2 in H; cbn [set_rules inner] in H. apply (d_sub s1 HD1) in H.
+      destruct (in_cs_dec o (clients_of t s)) as [Ho|Ho].
+      * rewrite (entries_none o s1 (Hin1 o Ho)) in H. contradiction.
+      * rewrite (entries_slk_eq o s1 s'); [exact H|]. rewrite (Hout o Ho). reflexivity.
+    + intros c Hm. apply Hpl in Hm. unfold s2 in Hm; cbn [set_rules inner] in Hm. apply (d_plain s1 HD1); exact Hm.
+Qed.
+
+Lemma step_delete_one s t : Inv s -> N.eqb t reserved = false ->
+  exists s', delete_one true t s = Ok s' [] /\ Facts s (Delete t) s'.
+Proof.
+  intros I Et. pose proof I as [B M]. unfold delete_one.
+  destruct (clear_clients s t I) as (s1 & Hs1 & B1 & Hru1 & Hst1 & Hin1 & Hout1 & Hpl1 & HD1).
+  rewrite Hs1. exists (set_rules (rrm t (rules s1)) s1). split; [reflexivity|].
+  assert (Hcl : forall t', clients_of t' (set_rules (rrm t (rules s1)) s1) = clients_of t' s).
+  { intros t'. unfold clients_of; cbn [set_rules streams]. rewrite Hst1. reflexivity. }
+  apply N.eqb_neq in Et.
+  split; [split|split; [|split]].
+  - apply base_set_rules; exact B1.
+  - constructor; cbn [set_rules subs rules].
+    + intros c Hc. destruct (in_cs_dec c (clients_of t s)) as [Hi|Hi].
+      * rewrite (Hin1 c Hi) in Hc. congruence.
+      * rewrite (Hout1 c Hi) in Hc. destruct (m_own_reg s M c Hc) as (t' & Ht' & Hin').
+        exists t'. split; [exact Ht'|rewrite Hcl; exact Hin'].
+    + intros t' c Hc. rewrite Hcl in Hc. rewrite Hru1. destruct (N.eq_dec t' t) as [->|Hn].
+      * rewrite rlk_rm_eq. apply Hin1; exact Hc.
+      * rewrite rlk_rm_neq by exact Hn.
+        assert (Hi : ~ In c (clients_of t s)).
+        { intros Hi. apply Hn. eapply clients_of_topic; eassumption. }
+        rewrite (Hout1 c Hi). apply (m_rule s M); exact Hc.
+    + rewrite Hru1. rewrite rlk_rm_neq by (intros E; apply Et; symmetry; exact E). exact (m_reserved s M).
+  - intros t'. cbn [set_rules rules rule_step]. rewrite Hru1.
+    destruct (N.eqb t reserved) eqn:E; [apply EN in E; contradiction|].
+    destruct (N.eqb t' t) eqn:E2.
+    + apply EN in E2. subst t'. apply rlk_rm_eq.
+    + apply N.eqb_neq in E2. apply rlk_rm_neq; exact E2.
+  - intros c. unfold regP. destruct (snd c) as [t'|g].
+    + rewrite Hcl. reflexivity.
+    + cbn [set_rules inner]. apply Hpl1.
+  - intros D _. specialize (HD1 D). destruct HD1 as [d1 d2]. constructor; assumption.
+Qed.
+
+Lemma step_delete_all s : Inv s ->
+  exists s', delete_all true s = Ok s' [] /\
+    Inv s' /\ (forall t, rlk t (rules s') = None) /\ (forall c, regP s' c <-> regP s c) /\ (InvD s -> InvD s').
+Proof.
+  intros [B M]. unfold delete_all.
+  destruct (stop_clients_spec false (keys (subs s)) s B (b_nd_subs s B)) as (inn & cl & Hstop & Hcl & Hinn).
+  rewrite Hstop. cbn [rules streams subs inner closed next]. eexists. split; [reflexivity|].
+  split; [split|split; [|split]].
+  - constructor; cbn [rules streams subs inner closed next entries lookup map];
+      try (intros; contradiction); try constructor.
+    + apply (b_cl s B).
+    + intros id Hid. apply Hcl in Hid. destruct Hid as [H|(c & f & _ & H)].
+      * apply (b_closed_lt s B); exact H.
+      * eapply (b_lt s B); exact H.
+  - constructor; cbn [rules streams subs lookup].
+    + intros c H. congruence.
+    + intros t c _. reflexivity.
+    + reflexivity.
+  - intros t. reflexivity.
+  - intros c. unfold regP. destruct (snd c) as [t|g]; [reflexivity|]. cbn [inner]. rewrite Hinn.
+    split; [intros [H _]; exact H|intros H; split; [exact H|intros; reflexivity]].
+  - intros D. constructor; cbn [inner].
+    + intros id f o Hm. exfalso. apply Hinn in Hm. destruct Hm as [H1 H2]. apply (d_sub s D) in H1.
+      assert (Hk : In o (keys (subs s))).
+      { apply (in_keys_lookup client_eqb EC). eapply entries_in_not_none; exact H1. }
+      specialize (H2 o id f Hk H1). rewrite is_sub_self in H2. discriminate.
+    + intros c Hm. apply Hinn in Hm. apply (d_plain s D). apply Hm.
+Qed.
+
+(* ---- every operation, from every state satisfying the invariant ---- *)
+Theorem step_facts s o : Inv s -> exists s' out, step true s o = Ok s' out /\ Facts s o s'.
+Proof.
+  intros I. destruct o as [c|c|t fs|t| |f].
+  - destruct (snd c) as [t|f] eqn:Ec.
+    + destruct (step_register_stream s c t I Ec) as (s' & H1 & H2). exists s', []. auto.
+    + destruct (step_register_plain s c f I Ec) as (s' & H1 & H2). exists s', []. auto.
+  - destruct (snd c) as [t|f] eqn:Ec.
+    + destruct (step_unregister_stream s c t I Ec) as (s' & H1 & H2). exists s', []. auto.
+    + destruct (step_unregister_plain s c f I Ec) as (s' & H1 & H2). exists s', []. auto.
+  - destruct (step_addrule s t fs I) as (s' & H1 & H2). exists s', []. auto.
+  - cbn [step]. destruct (N.eqb t reserved) eqn:Et.
+    + destruct (step_delete_all s I) as (s' & H1 & H2 & H3 & H4 & H5). exists s', []. split; [exact H1|].
+      split; [exact H2|]. split; [|split; [exact H4|intros D _; exact (H5 D)]].
+      intros t'. rewrite H3. cbn [rule_step]. rewrite Et. reflexivity.
+    + destruct (step_delete_one s t I Et) as (s' & H1 & H2). exists s', []. auto.
+  - cbn [step]. destruct (step_delete_all s I) as (s' & H1 & H2 & H3 & H4 & H5). exists s', []. split; [exact H1|].
+    split; [exact H2|]. split; [|split; [exact H4|intros D _; exact (H5 D)]].
+    intros t'. rewrite H3. reflexivity.
+  - exists s, (recipients f (inner s)). split; [reflexivity|]. split; [exact I|].
+    split; [reflexivity|]. split; [reflexivity|]. intros D _; exact D.
 Qed.
